@@ -142,31 +142,41 @@ def check_no_panic(ctx, rep, tier):
         for p in extra:
             en = Engine(prog)
             for lf in en.run(p):
-                if lf.kind == 'return':
-                    cell = lf.cells.get(('H', 'self'))
-                    if cell is not None:
-                        v = cell[3][0]
-                        vals = [v[1]] if v[0] == 'c' else list(lf.doms.get(v[1], [])) if v[0] == 'a' else list(range(len(ctx.dstates)))
-                        for s in vals:
-                            reach |= t.reachable(s)
+                if lf.kind == 'return' and lf.cells.get(('H', 'self')) is not None:
+                    from .extract import flat_scalars
+                    import itertools
+                    fl = flat_scalars(lf.cells[('H', 'self')])
+                    doms = []
+                    for x in fl:
+                        if x[0] == 'c':
+                            doms.append([x[1]])
+                        elif x[0] == 'a' and lf.doms.get(x[1]) is not None:
+                            doms.append(sorted(lf.doms[x[1]]))
+                        else:
+                            raise Undecided('extra writer %s leaves a state that cannot be enumerated' % p)
+                    for s in itertools.product(*doms):
+                        reach |= t.reachable(s)
+        name = self_str.split('::')[-1]
         for fl in prog.adt(adt_path)['variants'][0]['fields']:
             if fl['vis'] == 'pub':
-                reach = set(range(len(ctx.dstates)))
-                rep.finding('C08 %s public-state' % self_str.split('::')[-1], 'state field is public: every state is reachable')
-        name = self_str.split('::')[-1]
+                allst = t.all_states()
+                if allst is None:
+                    raise Undecided('public decoder state with a huge domain')
+                reach = set(allst)
+                rep.finding('C08 %s public-state' % name, 'state field is public: every state is reachable')
         for s in sorted(reach):
             for c in range(256):
-                res, post, li = t.cells[(s, c)]
+                res, post, li = t.cell(s, c)
                 if res[0] == 'panic':
                     rep.ob('scancode cells', 1, 0)
-                    rep.finding('C08 op=%s::advance_state state=%s trap=%s' % (name, ctx.dstates[s], res[1]),
-                                'byte 0x%02X in reachable state %s traps; %s' % (c, ctx.dstates[s], t.where(s, c)))
+                    rep.finding('C08 op=%s::advance_state state=%s trap=%s' % (name, t.state_str(s), res[1]),
+                                'byte 0x%02X in reachable state %s traps; %s' % (c, t.state_str(s), t.where(s, c)))
                 else:
                     rep.ob('scancode cells', 1)
-        rep.analysed[name] = {'reachable_states': sorted(ctx.dstates[s] for s in reach),
-                              'unreachable_trap_states': sorted({ctx.dstates[s] for (s, c), v in t.cells.items() if v[0][0] == 'panic' and s not in reach}),
+        rep.analysed[name] = {'reachable_states': sorted(t.state_str(s) for s in reach),
+                              'trap_state_cubes_all_unreachable': t.trap_states(),
                               'state_writers': sorted(p for p, k in wr.items() if k - {'construct'}) + [newp]}
-        rep.sample({'impl': name, 'reachable': rep.analysed[name]['reachable_states'], 'trap_only_in': rep.analysed[name]['unreachable_trap_states']})
+        rep.sample({'impl': name, 'reachable': rep.analysed[name]['reachable_states'], 'traps_only_in_state_cubes': rep.analysed[name]['trap_state_cubes_all_unreachable']})
         covered_fns |= {path, newp}
     # ---- 3. event decoder (layout opaque) and 4. Keyboard glue (stages opaque) ----
     stage_opaque = set()
